@@ -71,7 +71,10 @@ def run(tier, seed, result):
     total = 0
     nontrivial = 0
     for cname, nscls, tcls, helpers, is_async, is_server in cases():
-        for regns in reg_namespaces:
+        # a fresh object, and one that has already served events (the
+        # catch-all registration '*' serves concrete namespaces)
+        for regns, used in [(r, u) for r in reg_namespaces + ['*']
+                            for u in (False, True)]:
             calls = []
             results = {h: Sentinel('result-' + h) for h in helpers}
             Rec = recorder_class(tcls, helpers, is_async, calls, results)
@@ -79,8 +82,29 @@ def run(tier, seed, result):
                 target = Rec(async_mode='asgi' if is_async else 'threading')
             else:
                 target = Rec(handle_sigint=False)
-            ns = nscls(regns)
+            served = []
+            if is_async:
+                class Used(nscls):
+                    async def on_my_event(self, *a):
+                        served.append(a)
+            else:
+                class Used(nscls):
+                    def on_my_event(self, *a):
+                        served.append(a)
+            Used.__name__ = nscls.__name__
+            ns = Used(regns)
             target.register_namespace(ns)
+            if used:
+                concrete = '/served' if regns == '*' else regns
+                for ev in ('my_event', 'other'):
+                    a = ('sid1', 1) if is_server else (1,)
+                    r = target._trigger_event(ev, concrete, *a)
+                    if asyncio.iscoroutine(r):
+                        loop.run_value(r)
+                if len(served) != 1:
+                    raise common.HarnessError(
+                        f'{cname}({regns!r}) did not serve the event: '
+                        f'{served}')
             for h in helpers:
                 hsig = inspect.signature(getattr(nscls, h))
                 tsig = inspect.signature(getattr(tcls, h))
